@@ -310,4 +310,5 @@ _amend('C10', 'gtx/matrix_operation diagonalCxR, gtx/matrix_factorisation fliplr
 _amend('C11', 'The NaN-aware rule covers the vector overloads of fmin / fmax (2-4 operands, vector and scalar second operand) and fclamp (vector and scalar bounds) for every length.')
 _amend('C13', 'squad / intermediate with their primitives (mix, slerp, exp, log, inverse) kept as opaque calls are the documented compositions.', 'Superseded: squad / intermediate are decided as compositions.')
 _amend('C18', 'gtx/integer sqrt(int) / sqrt(uint): the kernel with a constant argument must fold to floor(sqrt(n)) for small values, k^2 - 1, k^2, k^2 + 1 and the type maxima.')
+_amend('C18', 'gtx/bit highestBitValue / powerOfTwoAbove / powerOfTwoBelow / powerOfTwoNearest and ext findNSB(x, n): the kernel with a constant argument must fold (loops peeled) to the value of the documented definition for zero, powers of two, their neighbours, the ties of powerOfTwoNearest and the type maxima.')
 NOTES = NOTES + ' Scheduling is deterministic: cases are dealt round-robin into 64 partitions, each run in a freshly forked worker, so hash-consed term ids (which order commutative operands) do not depend on which worker was free; floors (rules/expect.json) are exact decided counts.' if isinstance(NOTES, str) else NOTES
